@@ -46,6 +46,7 @@ package phttp
 //@ at call b.Client.Do assert [the-ammo-request-is-sent] arg(req) == result_of(ammo.Request, 0) || b.Config.HTTPTrace.TraceEnabled
 //@ at call b.Aggregator.Report assert [the-ammo-sample-is-reported] arg(a0) == result_of(ammo.Request, 1)
 //@ at call getHostWithoutPort assert [host-of-the-configured-target] arg(target) == b.Config.Target
+//@ at call io.Copy assert [the-whole-answer-is-read-so-that-the-connection-is-kept-for-the-next-shot] arg(a1) == box(res.Body)
 
 // Answer logging reads the body and puts back an equal copy; nothing else of the request is touched.
 //@ func GetBody
